@@ -127,7 +127,7 @@ def l3_scripted(ctx, T, rng, n_sessions):
 
 
 def run(ctx: core.Ctx):
-    ctx.lean_stage(extra_props=("C09x",))
+    ctx.lean_stage(extra_props=("C09x", "Tie"))
     T = core.tables()
     rng = ctx.rng
     thorough = ctx.tier == "thorough"
